@@ -1,24 +1,83 @@
 (* C02 — first-fit lines fit the width unless the line is one unbreakable fragment.
-   Fragment level (assembled text-level statement pending Proofs/Pipeline.v): in the
-   first-fit arrangement every line with at least two fragments has computed width
-   (fragment widths + inner whitespace + the last fragment's penalty) at most the width
-   of that line; and force-broken pieces are at most the limit wide unless they consist
-   of a single non-zero-width character. *)
-From Coq Require Import ZArith Lia.
-From TW Require Import Wrap.
-From TW Require Import Greedy SplitBreak.
+   Text level, for every paragraph of a multi-paragraph text and for initial and
+   subsequent indents of different widths (each line is measured against the indent it
+   is rendered with — model of the repaired code).
+   Hypotheses: cw SP = cw '-' = 1 and cw c <= utf8_len c (true of both width functions,
+   C02_width_functions); well-formed indents (IndentsOK: the machine is at top level after
+   each indent); a valid custom splitter; and ParaTop: every fragment of every paragraph is
+   self-contained with respect to escape sequences.  The negation of ParaTop is the listed
+   known finding CutInsideEscape (D6); ESC-free text satisfies it (C02_esc_free). *)
+From TW Require Import Wrap Custom.
+From TW Require Import Pipeline SplitBreak WidthTableFacts WidthBound.
 
-Theorem C02_multi_fragment_lines_fit : forall (A : Type) (m : A -> frag NumZ) xs lws k pre x,
-  nth_error (first_fit m xs lws) k = Some (pre ++ [x]) -> pre <> [] ->
-  (run_width A m pre + fw (m x) + fpen (m x) <= @nth_width NumZ lws k)%Z.
+Section C02.
+Variable cw : char -> N.
+Variable alnum : char -> bool.
+Variable lbc : str -> list N.
+Variable custom_sp : str -> list N.
+Variable ofit : penalties -> list word -> list N -> option (list (list word)).
+Hypothesis cw_SP : cw SP = 1.
+Hypothesis cw_HY : cw HY = 1.
+Hypothesis cw_le : forall c, cw c <= utf8_len c.
+Notation W := (wrap cw alnum lbc custom_sp ofit).
+
+(* every line fits, or the part after the indent is a single fragment, or (known class
+   D7) the indent alone is wider than the width and the body has display width 0 *)
+Theorem C02_lines_fit : forall o text ls,
+  o_alg o = FirstFit -> SplitterOK custom_sp -> IndentsOK o ->
+  (forall p, In p (split_le (o_le o) text) -> ParaTop cw alnum lbc custom_sp o p) ->
+  W o text = Some ls -> forall i l, nth_error ls i = Some l ->
+  let ind := if (i =? 0)%nat then o_ii o else o_si o in
+  dw cw (l_text l) <= o_width o \/
+  exists p first bws k g,
+    In p (split_le (o_le o) text) /\
+    pipeline_words cw alnum lbc custom_sp o first p = Some bws /\
+    nth_error (ff_groups cw o first bws) k = Some g /\
+    l_text l = ind ++ body g ++ lastw_pen g /\
+    ((exists w, g = [w]) \/ (o_width o < dw cw ind /\ dw cw (body g) = 0 /\ lastw_pen g = [])).
+Proof. exact (wrap_width cw alnum lbc custom_sp ofit cw_SP cw_HY cw_le). Qed.
+
+(* with break_words and a built-in splitter the single fragment has exactly one character
+   of non-zero width *)
+Theorem C02_break_words : forall o text ls,
+  o_alg o = FirstFit -> SplitterOK custom_sp -> IndentsOK o -> o_bw o = true ->
+  o_spl o <> SplCustom ->
+  (forall p, In p (split_le (o_le o) text) -> ParaTop cw alnum lbc custom_sp o p) ->
+  W o text = Some ls -> forall i l, nth_error ls i = Some l ->
+  let ind := if (i =? 0)%nat then o_ii o else o_si o in
+  dw cw (l_text l) <= o_width o \/
+  (exists b, l_text l = ind ++ b /\ nzv cw b = 1%nat) \/
+  (o_width o < dw cw ind /\ exists b, l_text l = ind ++ b /\ dw cw b = 0).
+Proof. exact (wrap_width_unbreakable cw alnum lbc custom_sp ofit cw_SP cw_HY cw_le). Qed.
+
+(* ESC-free text and indents need no further hypothesis *)
+Theorem C02_esc_free : forall o text ls,
+  o_alg o = FirstFit -> SplitterOK custom_sp ->
+  Forall (fun c => c <> ESC) (o_ii o) -> Forall (fun c => c <> ESC) (o_si o) ->
+  Forall (fun c => c <> ESC) text ->
+  W o text = Some ls -> forall i l, nth_error ls i = Some l ->
+  let ind := if (i =? 0)%nat then o_ii o else o_si o in
+  dw cw (l_text l) <= o_width o \/
+  exists p first bws k g,
+    In p (split_le (o_le o) text) /\
+    pipeline_words cw alnum lbc custom_sp o first p = Some bws /\
+    nth_error (ff_groups cw o first bws) k = Some g /\
+    l_text l = ind ++ body g ++ lastw_pen g /\
+    ((exists w, g = [w]) \/ (o_width o < dw cw ind /\ dw cw (body g) = 0 /\ lastw_pen g = [])).
+Proof. exact (wrap_width_esc_free cw alnum lbc custom_sp ofit cw_SP cw_HY cw_le). Qed.
+End C02.
+
+(* both width functions meet the hypotheses *)
+Theorem C02_width_functions :
+  (cw_simple SP = 1 /\ cw_simple HY = 1 /\ forall c, cw_simple c <= utf8_len c) /\
+  (cw_table SP = 1 /\ cw_table HY = 1 /\ forall c, cw_table c <= utf8_len c).
 Proof.
-  intros A m xs lws k pre x H Hne.
-  exact (proj1 (first_fit_greedy A m xs lws k pre x [] H) Hne).
+  split; (split; [vm_compute; reflexivity|split; [vm_compute; reflexivity|]]).
+  - exact cw_simple_le.
+  - exact cw_table_le.
 Qed.
 
-Theorem C02_broken_pieces_bounded : forall (cw : char -> N) lim wd,
-  Forall (fun p => w_width p <= lim \/ nzv cw (w_word p) = 1%nat) (break_apart cw lim wd).
-Proof. exact break_apart_bound. Qed.
-
-Print Assumptions C02_multi_fragment_lines_fit.
-Print Assumptions C02_broken_pieces_bounded.
+Print Assumptions C02_lines_fit.
+Print Assumptions C02_break_words.
+Print Assumptions C02_esc_free.
+Print Assumptions C02_width_functions.
